@@ -14,7 +14,8 @@
 (***************************************************************************)
 EXTENDS Integers, Sequences, FiniteSets, TLC
 
-CONSTANTS Dev, Fl, R, MaxConn, MaxTime
+CONSTANTS Dev, Fl, R, MaxConn, MaxTime,
+          Slack      \* the asyncio watchdog re-arms every R + Slack ticks (reconnect_timeout + 0.1 s, rounded up to ticks)
 
 VARIABLES now, stopped, live, nconn, made, lost, lostexc, attempts, loop, wake,
           lastProbe, lastAnswer, probes, afterStop, eofPending, nextCheck
@@ -41,7 +42,7 @@ Attempt(ok) ==
                 /\ lastProbe' = now /\ lastAnswer' = now
           ELSE /\ UNCHANGED <<nconn, live, made, lastProbe, lastAnswer>>
                /\ loop' = "sleeping" /\ wake' = now + R
-  /\ nextCheck' = (IF ok THEN now + R + 1 ELSE nextCheck)     \* asyncio TCP: check_connection runs at connect, then every R + 0.1
+  /\ nextCheck' = (IF ok THEN now + R + Slack ELSE nextCheck)     \* asyncio TCP: check_connection runs at connect, then every R + 0.1
   /\ UNCHANGED <<now, stopped, lost, lostexc, probes, afterStop, eofPending>>
 
 \* the link is lost without the user having asked for it: one callback, then a reconnect at once
@@ -75,14 +76,14 @@ Tick(d) ==
   \* an asyncio check that finds nothing to do just re-arms its timer
   /\ nextCheck' = IF /\ Fl = "async" /\ Dev = "tcp" /\ live # 0 /\ now + d >= nextCheck
                       /\ ~(now + d > lastProbe + R) /\ ~(now + d > lastAnswer + 2 * R)
-                   THEN now + d + R + 1 ELSE nextCheck
+                   THEN now + d + R + Slack ELSE nextCheck
   /\ UNCHANGED <<stopped, live, nconn, made, lost, lostexc, attempts, wake, lastProbe, lastAnswer, probes, afterStop, eofPending>>
 Watchdog ==
   /\ ~stopped
   /\ IF DropDue THEN /\ (\E x \in BOOLEAN : Lose(live, x)) /\ lastAnswer' = now /\ UNCHANGED <<lastProbe, probes>> /\ eofPending' = FALSE
      ELSE IF ProbeDue THEN /\ probes' = probes + 1 /\ lastProbe' = now /\ UNCHANGED <<live, lost, lostexc, loop, lastAnswer, eofPending>>
      ELSE FALSE
-  /\ nextCheck' = now + R + 1
+  /\ nextCheck' = now + R + Slack
   /\ UNCHANGED <<now, stopped, nconn, made, attempts, wake, afterStop>>
 \* the gateway answers a probe (any I_VERSION message from it counts)
 Answer == /\ Dev = "tcp" /\ live # 0 /\ ~stopped /\ ~eofPending /\ lastAnswer' = now
@@ -96,7 +97,7 @@ Stop ==
   /\ UNCHANGED <<now, nconn, made, lostexc, attempts, wake, lastProbe, lastAnswer, probes, afterStop, eofPending, nextCheck>>
 
 Next == Start \/ Attempt(TRUE) \/ Attempt(FALSE) \/ ReadError \/ WriteError \/ PeerClose
-        \/ (\E d \in 1..(2 * R + 1) : Tick(d)) \/ Watchdog \/ Answer \/ Stop
+        \/ (\E d \in 1..(2 * R + 3) : Tick(d)) \/ Watchdog \/ Answer \/ Stop
 \* the system is never late: whatever is due (an attempt, a probe, a drop) happens before the clock moves
 Urgent == loop = "trying" \/ (~stopped /\ (DropDue \/ ProbeDue))
 NextTimed == (Urgent /\ (Attempt(TRUE) \/ Attempt(FALSE) \/ Watchdog \/ Stop))
@@ -120,5 +121,5 @@ AnsweredNeverDropped ==
   [][(Dev = "tcp" /\ live # 0 /\ live' = 0 /\ ~stopped' /\ lost'[live] = lost[live] + 1 /\ lostexc'[live] /\ DropDue)
        => now > lastAnswer + 2 * R]_vars
 \* (threaded: at the first tick past 2R; asyncio: at the first check after that, at most R + 1 later)
-SilentDroppedInTime == (Dev = "tcp" /\ live # 0 /\ ~stopped) => now <= lastAnswer + 2 * R + (R + 1) + 2 * R + 1
+SilentDroppedInTime == (Dev = "tcp" /\ live # 0 /\ ~stopped) => now <= lastAnswer + 2 * R + (R + Slack) + 2 * R + 3
 =============================================================================
